@@ -39,7 +39,9 @@ func (e ext) String() string {
 func (e ext) class() string {
 	t := e.T
 	if e.Fam == "covered" {
-		t = e.T2 // whole / partial; the list is in the payload
+		t = e.X // the index pattern; the list and whole / partial are in the payload
+	} else if e.Fam == "decoded" {
+		t = e.X
 	} else if e.T2 != "" {
 		t += "+" + e.T2
 	}
@@ -146,6 +148,15 @@ type mctx struct {
 	// what re-sealing must leave alone because the entry is about it
 	keepPayout, keepCommitment, keepNonce, keepSigs bool
 	unknown                                         string // set when the interpreter does not know the entry
+	// noDirect: the entry changes the CONTENT of a supplement element. The supplement is the node's own data; ValidateBlock
+	// checks it against the accumulator before any transaction sees it, so such mutants go through ValidateBlock only.
+	noDirect bool
+	created  *createdIDs // ids of the elements the block creates, by kind (material for ids of another kind)
+}
+
+// createdIDs: elements created by the base block, in creation order.
+type createdIDs struct {
+	sc, sf, fc, v2fc []types.Hash256
 }
 
 func (m *mctx) v1() *types.Transaction {
@@ -454,7 +465,34 @@ func widePolicy(n int, leaf types.SpendPolicy) types.SpendPolicy {
 // apply performs the entry on the mutant; false = not applicable here.
 func (m *mctx) apply(e ext) bool {
 	child := m.child
+	if strings.HasPrefix(e.T, "supp.") || strings.HasPrefix(e.T2, "supp.") {
+		switch e.Fam {
+		case "cur", "cur2", "proof", "leaf", "filesize", "window":
+			m.noDirect = true
+		}
+	}
 	switch e.Fam {
+	case "decoded":
+		if e.Ver == 1 {
+			var txn types.Transaction
+			if json.Unmarshal([]byte(e.X), &txn) != nil {
+				return false
+			}
+			m.b.Transactions = append(m.b.Transactions, txn)
+			m.bs.Transactions = append(m.bs.Transactions, consensus.V1TransactionSupplement{})
+			m.ver, m.k = 1, len(m.b.Transactions)-1
+			return true
+		}
+		var txn types.V2Transaction
+		if json.Unmarshal([]byte(e.X), &txn) != nil {
+			return false
+		}
+		if m.b.V2 == nil {
+			m.b.V2 = &types.V2BlockData{Height: m.child}
+		}
+		m.b.V2.Transactions = append(m.b.V2.Transactions, txn)
+		m.ver, m.k = 2, len(m.b.V2.Transactions)-1
+		return true
 	case "cur", "cur2":
 		set := func(t, x string, nth int) bool {
 			v, ok := curVal(x)
@@ -547,8 +585,8 @@ func (m *mctx) apply(e ext) bool {
 			idx = []uint64{0, 0}
 		case "unsorted":
 			idx = []uint64{1, 0}
-		case "10000x0":
-			idx = make([]uint64, 10000)
+		case "40000x0":
+			idx = make([]uint64, 40000)
 		case "all+len":
 			for i := 0; i <= n; i++ {
 				idx = append(idx, uint64(i))
@@ -716,31 +754,65 @@ func (m *mctx) apply(e ext) bool {
 	return false
 }
 
+func minID[V any](mp map[types.Hash256]V) (types.Hash256, bool) {
+	var best types.Hash256
+	found := false
+	for id := range mp {
+		if !found || bytes.Compare(id[:], best[:]) < 0 {
+			best, found = id, true
+		}
+	}
+	return best, found
+}
+
 func (m *mctx) applyParents(e ext) bool {
 	other := types.Hash256(hashN(99))
-	if e.X == "id-of-other-kind" {
-		// the id of a live element of another kind (a contract id for an output, an output id for a contract)
-		found := false
-		if e.T == "rev" || e.T == "res" {
-			for id := range m.sim.Store.SC {
-				other, found = types.Hash256(id), true
-				break
+	wantContract := e.T == "rev" || e.T == "res"
+	switch e.X {
+	case "id-of-other-kind":
+		// the id of an element of another kind that THIS BLOCK creates; the last created has the largest index
+		if m.created == nil {
+			return false
+		}
+		var pool []types.Hash256
+		if wantContract {
+			pool = append(append([]types.Hash256{}, m.created.sf...), m.created.sc...)
+		} else if e.T == "sci" {
+			pool = append(append(append([]types.Hash256{}, m.created.fc...), m.created.v2fc...), m.created.sf...)
+			if len(pool) == 0 {
+				return false
 			}
 		} else {
+			pool = append(append(append([]types.Hash256{}, m.created.fc...), m.created.v2fc...), m.created.sc...)
+		}
+		if len(pool) == 0 {
+			return false
+		}
+		other = pool[len(pool)-1]
+	case "id-of-committed-other-kind":
+		found := false
+		if wantContract {
+			sc := map[types.Hash256]bool{}
+			for id := range m.sim.Store.SC {
+				sc[types.Hash256(id)] = true
+			}
+			other, found = minID(sc)
+		} else {
+			fc := map[types.Hash256]bool{}
 			for id := range m.sim.Store.V2FC {
-				other, found = types.Hash256(id), true
-				break
+				fc[types.Hash256(id)] = true
 			}
 			for id := range m.sim.Store.FC {
-				other, found = types.Hash256(id), true
-				break
+				fc[types.Hash256(id)] = true
 			}
-			if !found {
+			if len(fc) == 0 {
 				for id := range m.sim.Store.SF {
-					other, found = types.Hash256(id), true
-					break
+					if e.T != "sfi" {
+						fc[types.Hash256(id)] = true
+					}
 				}
 			}
+			other, found = minID(fc)
 		}
 		if !found {
 			return false
@@ -876,10 +948,6 @@ func (m *mctx) applySupp(e ext) bool {
 		case "nil":
 			m.bs.Transactions = nil
 		case "expiring-extra":
-			for _, fce := range m.sim.Store.FC {
-				m.bs.ExpiringFileContracts = append(m.bs.ExpiringFileContracts, fce.Copy())
-				return true
-			}
 			m.bs.ExpiringFileContracts = append(m.bs.ExpiringFileContracts, types.FileContractElement{ID: types.FileContractID(hashN(5))})
 		default:
 			return false
@@ -890,20 +958,31 @@ func (m *mctx) applySupp(e ext) bool {
 	var xsc *types.SiacoinElement
 	var xsf *types.SiafundElement
 	var xfc *types.FileContractElement
-	for _, el := range m.sim.Store.SC {
-		c := el.Copy()
-		xsc = &c
-		break
-	}
-	for _, el := range m.sim.Store.SF {
-		c := el.Copy()
-		xsf = &c
-		break
-	}
-	for _, el := range m.sim.Store.FC {
-		c := el.Copy()
-		xfc = &c
-		break
+	{
+		ids := map[types.Hash256]bool{}
+		for id := range m.sim.Store.SC {
+			ids[types.Hash256(id)] = true
+		}
+		if id, ok := minID(ids); ok {
+			c := m.sim.Store.SC[types.SiacoinOutputID(id)].Copy()
+			xsc = &c
+		}
+		ids = map[types.Hash256]bool{}
+		for id := range m.sim.Store.SF {
+			ids[types.Hash256(id)] = true
+		}
+		if id, ok := minID(ids); ok {
+			c := m.sim.Store.SF[types.SiafundOutputID(id)].Copy()
+			xsf = &c
+		}
+		ids = map[types.Hash256]bool{}
+		for id := range m.sim.Store.FC {
+			ids[types.Hash256(id)] = true
+		}
+		if id, ok := minID(ids); ok {
+			c := m.sim.Store.FC[types.FileContractID(id)].Copy()
+			xfc = &c
+		}
 	}
 	if xfc == nil {
 		xfc = &types.FileContractElement{ID: types.FileContractID(hashN(6)), StateElement: types.StateElement{LeafIndex: 0}}
@@ -1146,12 +1225,7 @@ func (m *mctx) applyResolution(e ext) bool {
 		sp := &types.V2StorageProof{}
 		cie, ok := m.sim.Store.CIE[fc.ProofHeight]
 		if !ok || cie.ChainIndex.Height > m.cs.Index.Height {
-			for _, c := range m.sim.Store.CIE {
-				if c.ChainIndex.Height <= m.cs.Index.Height {
-					cie, ok = c, true
-					break
-				}
-			}
+			cie, ok = m.sim.Store.CIE[m.cs.Index.Height]
 		}
 		if ok {
 			sp.ProofIndex = cie.Copy()
@@ -1843,7 +1917,7 @@ func (m *mctx) exercise(g *guard, count func(entry string, accepted bool)) *ledg
 		return bad("ValidateOrphan", o)
 	}
 	// the target transaction alone on a fresh MidState that has seen the transactions before it
-	if m.ver != 0 {
+	if m.ver != 0 && !m.noDirect {
 		var prepErr bool
 		ms := consensus.NewMidState(m.cs)
 		po := g.run(func() error {
